@@ -445,16 +445,12 @@ Proof.
       intros h Hh. apply in_map_iff in Hh as (k & <- & Hk). apply (ecc_hash_len c ks k HS Hk). }
     destruct (concat (map rkh_spec ks)) as [|b0 tb] eqn:EC.
     { exfalso. simpl in LC. rewrite EK in LC. simpl in LC. destruct Hc as [-> | ->]; simpl in LC; lia. }
-    unfold nlen. rewrite LC. rewrite <- EC.
-    assert (NZ : N.of_nat (length ks) <> 0) by (rewrite EK; simpl; lia).
-    rewrite Nat2N.inj_mul.
+    rewrite <- EC.
     assert (RS : rot_spec_v21 ks = hash (halg_c c) (concat (map rkh_spec ks))).
     { rewrite EK. rewrite EK in E1n. destruct t as [|k1 t']; [unfold nlen in E1n; simpl in E1n; discriminate|].
       unfold rot_spec_v21. destruct k0 as [|c0 x0 y0]; [contradiction|]. simpl in I0. subst c0.
       destruct Hc as [-> | ->]; reflexivity. }
-    rewrite RS. destruct Hc as [-> | ->]; cbn [halg_c hlen N.eqb Pos.eqb].
-    + change (N.of_nat 32) with 32. rewrite (proj1 (div_mul_cancel_nat _ NZ)). reflexivity.
-    + change (N.of_nat 48) with 48. rewrite (proj2 (div_mul_cancel_nat _ NZ)). reflexivity.
+    now rewrite RS.
   - cbn [bind]. rewrite LN. change (nlen (@nil (list N))) with 0. change (1 <? 0) with false. cbv iota.
     assert (L1 : ks = [k0]).
     { rewrite EK. destruct t; [reflexivity|]. rewrite EK in E1n. unfold nlen in E1n. simpl in E1n. apply N.ltb_ge in E1n. lia. }
@@ -824,3 +820,9 @@ Lemma ahab2_rsa_accepted_lemma :
               rot_ahab_export ahab2 (map (fun k => (k, SPlain)) (repeat (KRsa (2 ^ 2047 + 1) 65537) 4)) = Ok t /\
               length h = 64%nat /\ length t = (4 + 4 * (12 + 64))%nat.
 Proof. eexists. eexists. split; [vm_compute; reflexivity|]. split; [vm_compute; reflexivity|]. split; reflexivity. Qed.
+
+(* debug credential, P-521 (RotMetaEcc subclass with HASH_SIZE 66): the table of SHA-512 key hashes is hashed with SHA-512 *)
+Example dc_ecc_p521_table :
+  dc_ecc_hash [KEcc 521 1 2; KEcc 521 3 4] 1 =
+  Ok (sha512 (sha512 (be_encf 66 1 ++ be_encf 66 2) ++ sha512 (be_encf 66 3 ++ be_encf 66 4))).
+Proof. vm_compute. reflexivity. Qed.
